@@ -10,6 +10,7 @@ import GocoinV.Proofs.C19Run
 import GocoinV.Proofs.C19Crash
 import GocoinV.Proofs.C19Run2
 import GocoinV.Proofs.C19Run3
+import GocoinV.Proofs.C19Hist
 import GocoinV.Gen.QdbFacts
 namespace GocoinV.Props.C19
 open GocoinV GocoinV.Qdb GocoinV.QdbSpec GocoinV.Proofs.C19
@@ -328,11 +329,101 @@ theorem qdb_durable_defrag_partial (load : Bool) (opts : Opts) (ops : List Op)
   obtain ⟨_, hold⟩ := open_readable db.fs hready.readable vol' opts'
   refine ⟨es, he, fun n => ?_⟩
   obtain ⟨hR, hV⟩ := hall n
-  obtain ⟨o1, o2⟩ := open_readable _ hR vol' opts'
+  obtain ⟨o1, o2⟩ := open_readable _ hR.readable vol' opts'
   refine ⟨o1, ?_⟩
   rcases hV with hV | hV
   · exact Or.inl (fun k => by rw [o2 k, hV k, ← hold k])
   · exact Or.inr (fun k => by rw [o2 k, hV k, ← vals_eq, hv k])
+
+/-- Durability for EVERY history that CONTINUES after crashes (central theorem, stated bounds below). A history is a
+    list of items: an operation of the sub-language (Put / PutExt / Del / Get / Browse / ApplyFlags / Defrag / Sync /
+    NoSync without NO_CACHE, Close + NewDBExt(non-volatile, LoadData, any options)), or a CRASH: the process dies
+    inside an operation `o` after ANY number `n` of its file operations (`Model.Qdb.crashDir`: inside sync(), inside a
+    forced or automatic defrag() incl. writedatfile() and cleanupold(), inside Close, inside the clean-up NewDBExt
+    itself performs — removal of the older index file, of a discarded log, of unused data files), followed by ANY
+    number of recovery attempts that die inside NewDBExt after `ms` of its file operations (`recrash`), followed by a
+    NewDBExt(non-volatile, LoadData, any options) that completes; then the history goes on, with further crashes.
+    Start: NewDBExt on an empty directory. Bounds (`HFits`): keys 64-bit, flags 32-bit, data file < 4 GiB, sequence
+    numbers do not wrap (`OpFits2`, `maxSeq`), and at every item the index snapshot (16 + 24 bytes per record) is
+    at most the 1 MiB bufio buffer, i.e. at most 43 689 records (`DFits`). Then:
+    (1) the store never fails — every NewDBExt on every crash directory succeeds (no os.Exit, no panic);
+    (2) Get returns, for every key, the in-memory map `vals db`; Count is the number of keys of that map;
+    (3) the pair (in-memory map, durable map = what a reopen of the current directory finds) follows the
+        durable-map specification `DurOK`: operations act on the in-memory map as on a plain map; the durable map
+        stays or becomes the complete in-memory map, and it MUST become it at Sync, Defrag(true) and Close+reopen;
+        after a crash the store continues with — for ALL keys at once — the durable map from before the interrupted
+        operation or the complete map after it, and that is durable;
+    (4) hence no value is ever invented: whatever a key holds at the end, in memory or durably, was written by a
+        Put / PutExt of the history (`durOK_origin`).
+    NewDBExt re-establishes the invariants (`Inv3`) on every crash directory, also when `loadlog` discards the log
+    (empty log left between os.Create and the header write; previous version's log left by a crash in defrag). -/
+theorem qdb_durable_partial (load : Bool) (opts : Opts) (H : List HItem)
+    (ok : ∀ i ∈ H, HOK i) (fits : HFits (openDB {} false load opts) H) :
+    let db := hrun (openDB {} false load opts) H
+    db.failed = none ∧
+    (∀ k, (Qdb.get db k).2 = vals db k) ∧
+    (∃ ks : List Key, ks.Nodup ∧ (∀ k, k ∈ ks ↔ (vals db k).isSome = true) ∧ count db = ks.length) ∧
+    DurOK (fun _ => none) (fun _ => none) H (vals db) (diskValue db.fs) ∧
+    (∀ k v, (vals db k = some v ∨ diskValue db.fs k = some v) → ∃ i ∈ H, writes (itemOp i) k v) := by
+  intro db
+  obtain ⟨h3, hd⟩ := hrun_dur H _ (fresh_inv3 load opts) ok fits
+  have hv0 : vals (openDB {} false load opts) = fun _ => none := by
+    funext k; cases load <;> rfl
+  have hd0 : diskValue (openDB {} false load opts).fs = fun _ => none := by
+    funext k; cases load <;> rfl
+  rw [hv0, hd0] at hd
+  refine ⟨h3.inv.cached.1, fun k => (get_cached _ k h3.inv.cached).2.2, ?_, hd, fun k v hv => ?_⟩
+  · refine ⟨Keys db.index, h3.inv.nodup, fun k => ?_, by simp [count, Keys]⟩
+    rw [vals_eq, Option.isSome_map]
+    exact (ilookup_isSome_iff k db.index).symm
+  · rcases durOK_origin H _ _ _ _ hd k v hv with r | r | r
+    · cases r
+    · cases r
+    · exact r
+
+/-- non-vacuity of qdb_durable_partial: a synced put, an overwrite, a crash inside Sync after 2 of its file
+    operations with one failed recovery attempt, more changes, a crash inside a forced defrag after 4 file operations,
+    a crash inside the NewDBExt of a Close+reopen (after all of Close's and one of NewDBExt's file operations) -/
+example :
+    let H := [HItem.op (.put 1 [1, 2]), .op .sync, .op (.put 1 [9]), .crash .sync 2 [1] {}, .op (.put 2 [4]),
+              .crash (.defrag true) 4 [] { maxPending := 0 }, .op (.del 1), .crash (.reopen false true {}) 4 [0, 1] {}]
+    (∀ i ∈ H, HOK i) ∧ HFits (openDB {} false true {}) H := by
+  refine ⟨?_, ?_⟩
+  · intro i hi
+    simp only [List.mem_cons, List.not_mem_nil, or_false] at hi
+    rcases hi with rfl | rfl | rfl | rfl | rfl | rfl | rfl | rfl <;> simp [HOK, OpOK2, OpOK]
+  · simp only [HFits, OpFits2, OpFits, SizeOK, dFits_iff]
+    decide
+
+/-- Browse after ANY history of the sub-language, reopens and crashes included: Browse (with a walk function that
+    never asks for NO_CACHE) shows only true entries — every (key, value) it visits is the in-memory map's — and it
+    shows every entry whose browsing flag in memory does not say NO_BROWSE. (Which flags a record carries after a
+    reopen is decided by what was persisted with it: the flags at its last sync or defrag.) -/
+theorem browse_after_history_partial (load : Bool) (opts : Opts) (H : List HItem)
+    (ok : ∀ i ∈ H, HOK i) (fits : HFits (openDB {} false load opts) H) (w : List (Key × Nat)) (hw : WalkOK w) :
+    let db := hrun (openDB {} false load opts) H
+    (∀ kv ∈ (browse db w).2, vals db kv.1 = some kv.2) ∧
+    (∀ k v f, ilookup k (absv db) = some (v, f) → hasFlag f NO_BROWSE = false → (k, v) ∈ (browse db w).2) := by
+  intro db
+  obtain ⟨h3, _⟩ := hrun_dur H _ (fresh_inv3 load opts) ok fits
+  have hb : (browse db w).2 = mbrowseOut (absv db) := (browse_cached db w h3.inv.cached hw).2.2
+  have hnd : (Keys (absv db)).Nodup := by rw [keys_absv]; exact h3.inv.nodup
+  rw [hb]
+  constructor
+  · intro kv hkv
+    unfold mbrowseOut at hkv
+    obtain ⟨⟨k, v, f⟩, hmem, hf⟩ := List.mem_filterMap.mp hkv
+    simp only [] at hf
+    split at hf
+    · cases hf
+    · cases hf
+      show mget (absv db) k = some v
+      unfold mget
+      rw [ilookup_of_mem_nodup _ hnd k (v, f) hmem]
+      rfl
+  · intro k v f hl hf
+    unfold mbrowseOut
+    exact List.mem_filterMap.mpr ⟨(k, v, f), ilookup_key_pair k (v, f) _ hl, by simp [hf]⟩
 
 -- OPEN: qdb_durable in full — what is still missing for the statement of DESIGN §6: (i) index snapshots larger
 --   than the bufio buffer (a chunk boundary could in principle fall so that a prefix of the snapshot ends in bytes
